@@ -299,7 +299,7 @@ def run_check(a, prop, spec, workdir, seed, t_start):
                            'bound': bykey[k].get('bound', '')} for k, g in agg.items()],
             'functions_encoded': sorted(set(f for g in agg.values() for f in g['funcs']))[:400],
             'externals_modelled': sorted(set(f for g in agg.values() for f in g['externs'])),
-            'solver': 'z3 %s (python API, incremental, 10 s soft timeout, then a fresh solver with 180 s (or the instance's own limit))' % __import__('z3').get_version_string(),
+            'solver': 'z3 %s (python API, incremental, 10 s soft timeout, then a fresh solver with 180 s (or the limit set by the instance))' % __import__('z3').get_version_string(),
             'solver_time_s': round(sum(g['tq'] for g in agg.values()), 2),
             'build_s': round(build_s, 1),
             'bounds': getattr(spec, 'BOUNDS', {}).get(tier, getattr(spec, 'BOUNDS', '')),
